@@ -407,7 +407,7 @@ func runC13() *RunResult {
 		case 0:
 			p = &PathSpec{Text: "$", Prefix: "$", SingleValued: true}
 		case 1, 2:
-			p = genModelPath(false)
+			p = genModelPathFor(st.real, false)
 		default:
 			p = genPathFor(st.real, cfg.Funcs, false, 4, 1)
 		}
